@@ -194,7 +194,7 @@ VerdictReadText(rec) ==
 VerdictReadTextDev(rec) ==
   ReadTextAgainst(rec, [k \in 1..Len(rec.cues) |-> NormLines(DisplayDevAcc(rec.cues[k], <<>>, <<>>, rec.dev), TRUE)])
 
-Verdict(rec) == IF rec.k = "text" THEN VerdictText(rec)
+VerdictTC(rec) == IF rec.k = "text" THEN VerdictText(rec)
                 ELSE IF rec.k = "readtext" THEN VerdictReadText(rec)
                 ELSE IF rec.k = "readtext_dev" THEN VerdictReadTextDev(rec) ELSE "UnknownRecordKind"
 =============================================================================
